@@ -184,17 +184,23 @@ func (d *digest) UnmarshalBinary(b []byte) error {
 	if len(b) != marshaledSize {
 		return errors.New("crypto/blake2b: invalid hash state size")
 	}
+	// Validate the fields that are used as slice bounds before touching d, so
+	// that a corrupt state is rejected instead of causing a panic later on.
+	size := int(b[marshaledSize-BlockSize-2])
+	offset := int(b[marshaledSize-1])
+	if size < 1 || size > Size || offset > BlockSize {
+		return errors.New("crypto/blake2b: invalid hash state")
+	}
 	b = b[len(magic):]
 	for i := 0; i < 8; i++ {
 		b, d.h[i] = consumeUint64(b)
 	}
 	b, d.c[0] = consumeUint64(b)
 	b, d.c[1] = consumeUint64(b)
-	d.size = int(b[0])
+	d.size = size
 	b = b[1:]
 	copy(d.block[:], b[:BlockSize])
-	b = b[BlockSize:]
-	d.offset = int(b[0])
+	d.offset = offset
 	return nil
 }
 
